@@ -38,6 +38,7 @@ import (
 	"sync"
 	"time"
 
+	"github.com/tikv/client-go/v2/internal/simhook"
 	"github.com/tikv/client-go/v2/oracle"
 )
 
@@ -94,6 +95,7 @@ func (scheduler *LatchesScheduler) run() {
 
 func (scheduler *LatchesScheduler) wakeup(wakeupList []*Lock) {
 	for _, lock := range wakeupList {
+		simhook.Yield("scheduler.wakeup")
 		if scheduler.latches.acquire(lock) != acquireLocked {
 			lock.wg.Done()
 		}
@@ -117,6 +119,7 @@ func (scheduler *LatchesScheduler) Lock(startTS uint64, keys [][]byte) *Lock {
 	lock := scheduler.latches.genLock(startTS, keys)
 	lock.wg.Add(1)
 	if scheduler.latches.acquire(lock) == acquireLocked {
+		simhook.Yield("scheduler.Lock.wait")
 		lock.wg.Wait()
 	}
 	if lock.isLocked() {
